@@ -156,81 +156,81 @@ Proof.
   destruct c; destruct ps as [|p1 [|p2 [|p3 [|p4 [|p5 ps]]]]]; try discriminate H;
     unfold ctor in H; repeat chk H.
   - (* Bernoulli *)
-    destruct (is_float_num _ E0) as [x ->]. inversion H; subst. apply in01_iff in E1. simpl in E1.
-    destruct sok; [|discriminate]. simpl. auto.
+    destruct (is_float_num _ E0) as [xv ->]. inversion H; subst. apply in01_iff in E1. simpl in E1.
+    simpl. auto.
   - (* Beta *)
     apply gamma_checks_sound in E4, E5. destruct E4 as [_ [_ [A1 [A2 ->]]]]. destruct E5 as [_ [_ [B1 [B2 ->]]]].
-    inversion H; subst. destruct sok; [|discriminate].
+    inversion H; subst.
     apply pos_ok_iff in E1, E2; try assumption.
     split; [reflexivity|]. split; [split; [apply nums2; assumption|auto]|]. simpl. unfold gamma_ok. simpl. auto.
   - (* Binomial *)
-    destruct (is_float_num _ E0) as [x ->]. destruct (is_int_num _ E1) as [n ->]. inversion H; subst.
-    apply in01_iff in E2. apply int_pos_iff in E3. destruct sok; [|discriminate]. simpl in *. auto.
+    destruct (is_float_num _ E0) as [xv ->]. destruct (is_int_num _ E1) as [n ->]. inversion H; subst.
+    apply in01_iff in E2. apply int_pos_iff in E3. simpl in *. auto.
   - (* Constant *)
-    inversion H; subst. destruct sok; [|discriminate]. split; [reflexivity|]. split; [apply nums1; assumption|exact I].
+    inversion H; subst. split; [reflexivity|]. split; [apply nums1; assumption|exact I].
   - (* DiscreteUniform *)
     destruct (is_int_num _ E0) as [lo ->]. destruct (is_int_num _ E1) as [hi ->]. inversion H; subst.
-    simpl in E2. rewrite negb_true_iff, Z.leb_gt in E2. destruct sok; [|discriminate]. simpl. auto.
+    simpl in E2. rewrite negb_true_iff, Z.leb_gt in E2. simpl. auto.
   - (* Erlang, k < 10 *)
     destruct (is_int_num _ E0) as [k ->]. inversion H; subst. apply int_pos_iff in E2.
-    apply pos_ok_iff in E1; [|assumption]. destruct sok; [|discriminate].
+    apply pos_ok_iff in E1; [|assumption].
     split; [reflexivity|]. split; [split; [apply nums2; [assumption|reflexivity]|auto]|]. simpl. auto.
   - (* Erlang, k >= 10 *)
     destruct (is_int_num _ E0) as [k ->]. apply gamma_checks_sound in E6. destruct E6 as [_ [_ [A1 [A2 ->]]]].
-    inversion H; subst. apply int_pos_iff in E2. apply pos_ok_iff in E1; [|assumption]. destruct sok; [|discriminate].
+    inversion H; subst. apply int_pos_iff in E2. apply pos_ok_iff in E1; [|assumption].
     split; [reflexivity|]. split; [split; [apply nums2; [assumption|reflexivity]|auto]|].
     simpl. unfold gamma_ok. simpl. repeat split; auto.
     apply Z.ltb_ge in E5. simpl in E5. unfold pf, p_float; nr. apply (IZR_lt 1). lia.
   - (* Exponential *)
-    inversion H; subst. apply pos_ok_iff in E1; [|assumption]. destruct sok; [|discriminate].
+    inversion H; subst. apply pos_ok_iff in E1; [|assumption].
     split; [reflexivity|]. split; [split; [apply nums1; assumption|assumption]|assumption].
   - (* Gamma *)
     apply gamma_checks_sound in E0. destruct E0 as [N1 [N2 [A1 [A2 ->]]]]. inversion H; subst.
-    destruct sok; [|discriminate]. split; [reflexivity|]. split; [split; [apply nums2; assumption|auto]|]. simpl. auto.
+    split; [reflexivity|]. split; [split; [apply nums2; assumption|auto]|]. simpl. auto.
   - (* Geometric *)
-    destruct (is_float_num _ E0) as [x ->]. inversion H; subst. apply in01o_iff in E1. simpl in E1.
-    destruct sok; [|discriminate]. split; [reflexivity|]. split; [exact E1|]. simpl. split; [exact E1|].
-    simpl in E2. unfold r_log in E2. unfold one in E2; nr. destruct (Rlt_dec 0 (1 - x)); inversion E2. reflexivity.
+    destruct (is_float_num _ E0) as [xv ->]. inversion H; subst. apply in01o_iff in E1. simpl in E1.
+    split; [reflexivity|]. split; [exact E1|]. simpl. split; [exact E1|].
+    simpl in E2. unfold r_log in E2. unfold one in E2; nr. destruct (Rlt_dec 0 (1 - xv)); inversion E2. reflexivity.
   - (* LogNormal *)
-    inversion H; subst. apply pos_ok_iff in E2; [|assumption]. destruct sok; [|discriminate].
+    inversion H; subst. apply pos_ok_iff in E2; [|assumption].
     split; [reflexivity|]. split; [split; [apply nums2; assumption|assumption]|assumption].
   - (* NegBinomial *)
-    destruct (is_float_num _ E0) as [x ->]. destruct (is_int_num _ E1) as [n ->]. inversion H; subst.
-    apply in01o_iff in E2. apply int_pos_iff in E3. simpl in E2. destruct sok; [|discriminate].
+    destruct (is_float_num _ E0) as [xv ->]. destruct (is_int_num _ E1) as [n ->]. inversion H; subst.
+    apply in01o_iff in E2. apply int_pos_iff in E3. simpl in E2.
     split; [reflexivity|]. split; [simpl; auto|]. simpl. repeat split; try tauto.
-    simpl in E4. unfold r_log in E4. unfold one in E4; nr. destruct (Rlt_dec 0 (1 - x)); inversion E4. reflexivity.
+    simpl in E4. unfold r_log in E4. unfold one in E4; nr. destruct (Rlt_dec 0 (1 - xv)); inversion E4. reflexivity.
   - (* Normal *)
-    inversion H; subst. apply pos_ok_iff in E2; [|assumption]. destruct sok; [|discriminate].
+    inversion H; subst. apply pos_ok_iff in E2; [|assumption].
     split; [reflexivity|]. split; [split; [apply nums2; assumption|assumption]|assumption].
   - (* NormalTrunc *)
     inversion H; subst. apply pos_ok_iff in E4; [|assumption].
     unfold lt_ok in E5. apply p_lt_iff in E5; try assumption.
     rewrite !cum_prob_nt_val in E6, E7 by assumption. inversion E6; inversion E7; subst. nr.
-    apply Rleb_true in E8. destruct sok; [|discriminate].
+    apply Rleb_true in E8.
     split; [reflexivity|]. split; [split; [apply nums4; assumption|auto]|]. simpl. auto.
   - (* Pearson5 *)
     apply gamma_checks_sound in E5. destruct E5 as [_ [_ [A1 [A2 ->]]]]. inversion H; subst.
-    apply pos_ok_iff in E1, E2; try assumption. destruct sok; [|discriminate].
+    apply pos_ok_iff in E1, E2; try assumption.
     split; [reflexivity|]. split; [split; [apply nums2; assumption|auto]|]. simpl. unfold gamma_ok. simpl. auto.
   - (* Pearson6 *)
     apply gamma_checks_sound in E6, E7. destruct E6 as [_ [_ [A1 [A2 ->]]]]. destruct E7 as [_ [_ [B1 [B2 ->]]]].
-    inversion H; subst. apply pos_ok_iff in E2, E3, E4; try assumption. destruct sok; [|discriminate].
+    inversion H; subst. apply pos_ok_iff in E2, E3, E4; try assumption.
     split; [reflexivity|]. split; [split; [apply nums3; assumption|auto]|]. simpl. unfold gamma_ok. simpl. auto.
   - (* Poisson *)
-    inversion H; subst. apply pos_ok_iff in E1; [|assumption]. destruct sok; [|discriminate].
+    inversion H; subst. apply pos_ok_iff in E1; [|assumption].
     split; [reflexivity|]. split; [split; [apply nums1; assumption|assumption]|]. simpl. split; [assumption|].
     inversion E2. reflexivity.
   - (* Triangular *)
     inversion H; subst. unfold le_ok in E3, E4. apply p_le_iff in E3, E4; try assumption.
-    rewrite negb_true_iff in E5. destruct sok; [|discriminate].
+    rewrite negb_true_iff in E5.
     assert (NE : pf p1 <> pf p3).
     { intros C. apply (p_eq_iff p1 p3) in C; try assumption. rewrite C in E5. discriminate. }
     split; [reflexivity|]. split; [split; [apply nums3; assumption|auto]|]. simpl. fold (pf p1) (pf p2) (pf p3). lra.
   - (* Uniform *)
-    inversion H; subst. unfold lt_ok in E2. apply p_lt_iff in E2; try assumption. destruct sok; [|discriminate].
+    inversion H; subst. unfold lt_ok in E2. apply p_lt_iff in E2; try assumption.
     split; [reflexivity|]. split; [split; [apply nums2; assumption|assumption]|assumption].
   - (* Weibull *)
-    inversion H; subst. apply pos_ok_iff in E2, E3; try assumption. destruct sok; [|discriminate].
+    inversion H; subst. apply pos_ok_iff in E2, E3; try assumption.
     split; [reflexivity|]. split; [split; [apply nums2; assumption|auto]|]. simpl. auto.
 Qed.
 
